@@ -1204,7 +1204,62 @@ func RuleKBfs(c *core.Ctx) {
 			continue
 		}
 		c.Ob(rule, key, w.Pos(), core.FuncName(w), core.Discharged, "iterative traversal")
-		// FIFO: an element is taken at constant index 0 from a slice that is also appended to and resliced from 1
+	}
+	// FIFO: the frontier is consumed in the order in which commodities were
+	// reached. Two shapes are known: (F1) next = queue[0]; queue = queue[1:];
+	// queue = append(queue, …) and (F2) an index that walks a growing list from
+	// 0 in steps of one up to len(list), the list being appended to (here or in
+	// a helper that returns append(its parameter, …)).
+	fifoIn := ""
+	var seenList []*ssa.Function
+	for fn := range seen {
+		seenList = append(seenList, fn)
+	}
+	sort.Slice(seenList, func(i, j int) bool { return seenList[i].String() < seenList[j].String() })
+	appendsToParam := func(fn *ssa.Function, idx int) bool {
+		// every return of fn hands back its parameter idx, possibly extended by appends
+		if fn == nil || fn.Blocks == nil || idx >= len(fn.Params) {
+			return false
+		}
+		ok, any := true, false
+		core.EachInstr(fn, func(ins ssa.Instruction) {
+			ret, isRet := ins.(*ssa.Return)
+			if !isRet || len(ret.Results) != 1 {
+				return
+			}
+			any = true
+			seenV := map[ssa.Value]bool{}
+			var from func(v ssa.Value) bool
+			from = func(v ssa.Value) bool {
+				if seenV[v] {
+					return true
+				}
+				seenV[v] = true
+				switch x := v.(type) {
+				case *ssa.Parameter:
+					return x == fn.Params[idx]
+				case *ssa.Phi:
+					for _, e := range x.Edges {
+						if !from(e) {
+							return false
+						}
+					}
+					return true
+				case *ssa.Call:
+					if b, isB := x.Call.Value.(*ssa.Builtin); isB && b.Name() == "append" {
+						return from(x.Call.Args[0])
+					}
+				}
+				return false
+			}
+			if !from(ret.Results[0]) {
+				ok = false
+			}
+		})
+		return ok && any
+	}
+	for _, w := range seenList {
+		// F1
 		front, resliced, appended := false, false, false
 		core.EachInstr(w, func(ins ssa.Instruction) {
 			switch x := ins.(type) {
@@ -1224,11 +1279,96 @@ func RuleKBfs(c *core.Ctx) {
 				}
 			}
 		})
-		k2 := core.FuncName(w) + ":frontier is a FIFO queue"
 		if front && resliced && appended {
-			c.Ob(rule, k2, w.Pos(), core.FuncName(w), core.Discharged, "next commodity = queue[0]; queue = queue[1:]; newly priced commodities are appended")
+			fifoIn = core.FuncName(w) + " (next = queue[0]; queue = queue[1:]; newly priced commodities are appended)"
+		}
+		// F2
+		for h, body := range loopsOf(w) {
+			iff, ok := h.Instrs[len(h.Instrs)-1].(*ssa.If)
+			if !ok {
+				continue
+			}
+			cmp, ok := iff.Cond.(*ssa.BinOp)
+			if !ok || cmp.Op != token.LSS {
+				continue
+			}
+			idx, ok := cmp.X.(*ssa.Phi)
+			if !ok || idx.Block() != h {
+				continue
+			}
+			ln, ok := cmp.Y.(*ssa.Call)
+			if !ok {
+				continue
+			}
+			if b, isB := ln.Call.Value.(*ssa.Builtin); !isB || b.Name() != "len" {
+				continue
+			}
+			list, ok := ln.Call.Args[0].(*ssa.Phi)
+			if !ok || list.Block() != h {
+				continue
+			}
+			// index: 0, +1
+			idxOK := true
+			for i, e := range idx.Edges {
+				if body[h.Preds[i]] {
+					bo, ok := e.(*ssa.BinOp)
+					if !ok || bo.Op != token.ADD || bo.X != ssa.Value(idx) || !constInt(bo.Y, 1) {
+						idxOK = false
+					}
+				} else if !constInt(e, 0) {
+					idxOK = false
+				}
+			}
+			// list grows by appends (direct, or through a helper that returns its parameter extended)
+			growOK := true
+			for i, e := range list.Edges {
+				if !body[h.Preds[i]] {
+					continue
+				}
+				switch x := e.(type) {
+				case *ssa.Call:
+					if b, isB := x.Call.Value.(*ssa.Builtin); isB && b.Name() == "append" && x.Call.Args[0] == ssa.Value(list) {
+						continue
+					}
+					good := false
+					if callee := x.Call.StaticCallee(); callee != nil {
+						for k, a := range x.Call.Args {
+							if a == ssa.Value(list) && appendsToParam(callee, k) {
+								good = true
+							}
+						}
+					}
+					if !good {
+						growOK = false
+					}
+				case *ssa.Phi:
+					if x != list {
+						growOK = false
+					}
+				default:
+					growOK = false
+				}
+			}
+			// the element taken is list[idx]
+			elemOK := false
+			for b := range body {
+				for _, ins := range b.Instrs {
+					if ia, ok := ins.(*ssa.IndexAddr); ok && ia.X == ssa.Value(list) && ia.Index == ssa.Value(idx) {
+						elemOK = true
+					}
+				}
+			}
+			if idxOK && growOK && elemOK {
+				fifoIn = core.FuncName(w) + " (an index walks the growing list of reached commodities from 0 to its end)"
+			}
+		}
+	}
+	{
+		k2 := core.FuncName(normalize) + ":frontier is a FIFO queue"
+		if fifoIn != "" {
+			c.Ob(rule, k2, normalize.Pos(), core.FuncName(normalize), core.Discharged, "in "+fifoIn)
 		} else {
-			c.Ob(rule, k2, w.Pos(), core.FuncName(w), core.Violated, "the frontier of the traversal is not consumed first-in-first-out: prices are not assigned in order of distance from the valuation commodity")
+			c.Ob(rule, k2, normalize.Pos(), core.FuncName(normalize), core.Violated, "the frontier of the traversal is not consumed first-in-first-out: prices are not assigned in order of distance from the valuation commodity")
 		}
 	}
 	if len(writers) == 0 {
